@@ -33,6 +33,11 @@ add("C07", "runtime monitor: EN 302 931 oracle on two independent projections vs
     "Points inside the tolerance band max(1 m, 1 % of the semi-axis, disagreement of the great-circle and equirectangular projections) are not judged, as the property allows; sender == source in the two-station runs.",
     "DESIGN.md 3/C07")
 
+add("C01", "runtime monitor: exactly-once / order / metadata checker over handler invocations of 2-5 real stations on a simulated ether",
+    "Exploration: 2-5 real GN+BTP stacks (mesh and line topologies, SIMPLE/CBF, anywhere on the globe incl. both hemispheres and the antimeridian) exchange SHB, GBC, GAC (3 shapes) and GUC requests with unique payload tags, BTP-A/B, ports over the 16-bit range with several handlers per station, payloads 0..1400, all TC ids, hop limits, and GUC bursts issued while a location-service lookup is pending with unrelated receptions in between; after the ether is drained and all virtual timers up to LS give-up fired, the handler logs are checked for exactly-once delivery to the expected receiver set (topology + EN 302 931 oracle + hop budget), no delivery to other ports/stations/the sender, byte identity, request order per (sender, destination) and SO PV / transport type / port info / traffic class metadata.",
+    "Geo-broadcast/anycast reach is judged in full-mesh topologies only; receivers in the C07 tolerance band are not judged; SCF traffic is not generated (buffers are documented stubs); security-enabled variants are covered by C03/C05.",
+    "DESIGN.md 3/C01")
+
 NOT_YET = "check not built yet (work in progress; runtime monitor planned in DESIGN.md section 3)"
 
 def main():
